@@ -177,7 +177,7 @@ _C10 = ["sstore", "tstore", "log0", "log2", "log4", "create", "create2", "selfde
 PROPS["C10"] = dict(
     functions=["revm_interpreter::instructions::host::{sstore, tstore, log::<0|2|4>, selfdestruct}", "revm_interpreter::instructions::contract::{create::<false|true>, eofcreate, call, extcall}",
                "the CallInputs aggregate built by contract::{call, call_code, delegate_call, static_call, extcall, extdelegatecall, extstaticcall} (MIR)"],
-    bounds="is_static = true; 8 symbolic 256-bit stack words (all operand values), all u64 gas; CALL/EXTCALL: every non-zero value, symbolic target; "
+    bounds="is_static = true; 8 symbolic 256-bit stack words (all operand values), all u64 gas; CALL: every non-zero value (thorough tier, concrete target); the value guard of CALL and EXTCALL on MIR in both tiers (full 256-bit zero test of the popped value); "
            "SPEC = LatestSpec; host = NoHost (any host call fails the harness); flag propagation: the single CallInputs construction of each of the 7 call opcodes",
     outside="`the world state at the end of the static call equals the state at its start` (needs journal revert, DESIGN §2); LOG1/LOG3 (same generic body as LOG0/2/4); "
             "other Spec instantiations of the guard (it is not spec dependent); nested frames beyond the flag handed to the child",
@@ -438,8 +438,8 @@ CLAIMS = {
         engine="kani-cbmc + smt-mir", design_ref="DESIGN.md §5 C09"),
     "C10": dict(
         text="In a static frame every state-changing opcode function is run on symbolic operands with a host on which any call is a failure: CBMC shows the "
-             "result is the static-mode error, nothing is charged, no action is scheduled and the host is never reached; value-bearing CALL/EXTCALL are rejected for "
-             "every non-zero value. The static flag handed to child frames is read off the MIR of all seven call opcodes and compared by z3/cvc5 with the required value.",
+             "result is the static-mode error, nothing is charged, no action is scheduled and the host is never reached; a value-bearing CALL is rejected for every non-zero value (thorough tier), and the rejection guard of CALL and EXTCALL is read off MIR and decided "
+             "to be `is_static && value != 0` over all 256 bits. The static flag handed to child frames is read off the MIR of all seven call opcodes and compared by z3/cvc5 with the required value.",
         note="The end-state-equals-start-state half of the property needs journal revert and is outside. Flag propagation is a structural (MIR) check.",
         technique="Kani/CBMC on the real opcode functions in static mode + MIR aggregate scan with SMT equivalence (z3+cvc5)",
         engine="kani-cbmc + smt-mir", design_ref="DESIGN.md §5 C10"),
